@@ -106,6 +106,8 @@ def h_session(ctx, mods, shape):
         from .c05 import make_auth
         auth, keys = make_auth(ctx, nkeys=2, accept=('key', 1), maxdata=maxdata)
     st = Std(ctx, maxdata=maxdata, auth=auth)
+    if shape.get('sym_version'):
+        st.dev.version = ctx.int('device_version', 0, 2 ** 32 - 1)
     st.shell_outs[b'shell:'] = [ctx.bytes('out', 3), ctx.bytes('out', 2)]
     st.fs.stat[b'/f'] = (ctx.int('mode', 0, 2 ** 32 - 1), ctx.int('size', 0, 2 ** 32 - 1), ctx.int('mtime', 0, 2 ** 32 - 1))
     st.fs.listing[b'/d'] = [(ctx.int('m', 0, 2 ** 32 - 1), 1, 2, ctx.bytes('name', 2))]
@@ -154,6 +156,7 @@ def shapes(tier, seed):
     for impl in ('sync', 'async'):
         for auth in (False, True):
             out.append({'h': 'session', 'impl': impl, 'maxdata': 4096, 'fsize': 5000, 'auth': auth})
+        out.append({'h': 'session', 'impl': impl, 'maxdata': 4096, 'fsize': 5000, 'auth': False, 'sym_version': True})
         if not q:
             out.append({'h': 'session', 'impl': impl, 'maxdata': 65536, 'fsize': 150000, 'auth': False})
             out.append({'h': 'session', 'impl': impl, 'maxdata': 1 << 20, 'fsize': 150000, 'auth': False})
